@@ -762,6 +762,42 @@ void run_statements(Choices& c, Report& r, CaseState& st)
     }
     if (r.failed) break;
   }
+  // ---- boundary of "fits in the thread's current queue buffer": after a flush (queue drained) a statement whose encoded
+  // size is exactly the queue capacity, or a few bytes less, fits and must neither allocate nor grow the queue ----
+  if (!r.failed && st.mode != 3 && c.pick(5) == 4)
+  {
+    st.lg->flush_log();
+    st.since_flush = 0;
+    size_t const cap = quill::Frontend::get_thread_local_queue_capacity();
+    static uint32_t const deltas[] = {0, 0, 1, 2, 7, 8, 64, 4096};
+    uint32_t const delta = deltas[c.pick(8)];
+    size_t const fixed = 8 + 3 * sizeof(uintptr_t) + sizeof(uint32_t); // header + string length field
+    if (cap > fixed + delta + 16)
+    {
+      std::string big(cap - fixed - delta, 'x');
+      std::string_view const sv{big};
+      uint64_t const written0 = g_sink->written.load(std::memory_order_acquire);
+      verif_alloc_arm();
+      LOG_INFO(st.lg, "{}", sv);
+      VerifAllocCounts const cnt = verif_alloc_disarm();
+      // let the backend consume it before the (unarmed) flush request is enqueued: right behind a statement that fills the
+      // buffer the 40-byte flush record would legitimately make an unbounded queue grow
+      for (int spin = 0; spin < 2000000 && g_sink->written.load(std::memory_order_acquire) == written0; ++spin) std::this_thread::yield();
+      ++st.expect_sink;
+      ++st.n_statements;
+      size_t const cap_after = quill::Frontend::get_thread_local_queue_capacity();
+      r.label(delta == 0 ? "exact_fit_of_queue_capacity" : "near_fit_of_queue_capacity");
+      r.line("  boundary: string_view of " + std::to_string(big.size()) + " chars = encoded " + std::to_string(cap - delta) +
+             " B into an empty queue of " + std::to_string(cap) + " B");
+      if (cnt.total() != 0 || cap_after != cap)
+      {
+        r.fail("a statement of encoded size " + std::to_string(cap - delta) + " B logged into the drained queue of " + std::to_string(cap) +
+               " B (it fits the current buffer) allocated on the calling thread: " + describe_counts(cnt) + "; queue capacity " +
+               std::to_string(cap) + " -> " + std::to_string(cap_after));
+      }
+      st.lg->flush_log();
+    }
+  }
   // everything this thread enqueued is processed before the thread goes away / the case ends
   st.lg->flush_log();
 }
